@@ -1,4 +1,5 @@
 mod c19;
+mod c20;
 mod campaign;
 mod gen;
 mod host;
@@ -21,6 +22,7 @@ fn verif_root() -> String {
 fn with_campaign(prop: &str, f: &mut dyn FnMut(&dyn Dispatch) -> i32) -> i32 {
     match prop {
         "C19" => f(&c19::C19),
+        "C20" => f(&c20::C20),
         _ => {
             println!("HARNESS-ERROR: no campaign for {prop}");
             2
